@@ -112,6 +112,57 @@ pub fn elem_size(e: Elem) -> usize {
         Elem::U8 => 1,
         Elem::U32 => 4,
         Elem::Tracked => 24,
+        // payloads of generated vtables, native canonical layout: string and list<u8> are
+        // (pointer, length); `record rec { a: u32, b: string, c: list<u8> }` is 5 pointers wide
+        Elem::Str | Elem::Bytes => 16,
+        Elem::Rec => 40,
+    }
+}
+
+// Values of the generated payload types are a function of an id, so that the host can
+// recognise what it reads and make what it writes.
+pub fn str_of(id: u32) -> String {
+    format!("s{id}{}", "x".repeat((id % 4) as usize))
+}
+pub fn bytes_of(id: u32) -> Vec<u8> {
+    let mut v = id.to_le_bytes().to_vec();
+    v.extend(std::iter::repeat(id as u8).take((id % 5) as usize));
+    v
+}
+pub fn rec_list_of(id: u32) -> Vec<u8> {
+    vec![(id as u8).wrapping_mul(3); (id % 3) as usize]
+}
+pub fn id_of_str(b: &[u8]) -> Option<u32> {
+    let t = std::str::from_utf8(b).ok()?;
+    let digits: String = t.strip_prefix('s')?.chars().take_while(|c| c.is_ascii_digit()).collect();
+    let id: u32 = digits.parse().ok()?;
+    (str_of(id) == t).then_some(id)
+}
+pub fn id_of_bytes(b: &[u8]) -> Option<u32> {
+    let id = u32::from_le_bytes(b.get(..4)?.try_into().ok()?);
+    (bytes_of(id) == b).then_some(id)
+}
+unsafe fn read_slice<'a>(p: *const u8, what: &str) -> Result<&'a [u8], String> {
+    unsafe {
+        let ptr = (p as *const *const u8).read();
+        let len = (p.add(8) as *const usize).read();
+        if len > 1 << 20 {
+            return Err(format!("lowered {what}: length {len} is garbage"));
+        }
+        if len > 0 && !ledger::range_live(ptr, len) {
+            return Err(format!("lowered {what}: its {len} bytes are not live guest memory when the host reads them"));
+        }
+        Ok(if len == 0 { &[] } else { std::slice::from_raw_parts(ptr, len) })
+    }
+}
+unsafe fn write_slice(p: *mut u8, bytes: &[u8]) {
+    unsafe {
+        // guest memory (the real host calls cabi_realloc)
+        let len = bytes.len();
+        let lp = if len == 0 { std::ptr::NonNull::<u8>::dangling().as_ptr() } else { ledger::guest(|| std::alloc::alloc(Layout::array::<u8>(len).unwrap())) };
+        std::ptr::copy_nonoverlapping(bytes.as_ptr(), lp, len);
+        (p as *mut *mut u8).write(lp);
+        (p.add(8) as *mut usize).write(len);
     }
 }
 
@@ -140,6 +191,23 @@ pub unsafe fn host_read_elem(e: Elem, p: *const u8) -> Result<u32, String> {
                 id_entry(id, |x| x.host_recv += 1);
                 Ok(id)
             }
+            Elem::Str => {
+                let b = read_slice(p, "string")?;
+                id_of_str(b).ok_or_else(|| format!("lowered string {:?} is not a value that was ever sent", String::from_utf8_lossy(&b[..b.len().min(24)])))
+            }
+            Elem::Bytes => {
+                let b = read_slice(p, "list<u8>")?;
+                id_of_bytes(b).ok_or_else(|| format!("lowered list<u8> of {} bytes is not a value that was ever sent", b.len()))
+            }
+            Elem::Rec => {
+                let id = (p as *const u32).read();
+                let b = read_slice(p.add(8), "record field `b`")?;
+                let c = read_slice(p.add(24), "record field `c`")?;
+                if id_of_str(b) != Some(id) || c != rec_list_of(id).as_slice() {
+                    return Err(format!("lowered record a={id}: its string or list field does not belong to it"));
+                }
+                Ok(id)
+            }
         }
     }
 }
@@ -162,6 +230,14 @@ pub unsafe fn host_write_elem(e: Elem, p: *mut u8, id: u32) {
                 (p.add(8) as *mut *mut u8).write(lp);
                 (p.add(16) as *mut usize).write(len);
                 id_entry(id, |x| x.created += 1);
+            }
+            Elem::Str => write_slice(p, str_of(id).as_bytes()),
+            Elem::Bytes => write_slice(p, &bytes_of(id)),
+            Elem::Rec => {
+                (p as *mut u64).write(0);
+                (p as *mut u32).write(id);
+                write_slice(p.add(8), str_of(id).as_bytes());
+                write_slice(p.add(24), &rec_list_of(id));
             }
         }
     }
